@@ -373,6 +373,41 @@ def handlePost (template : Bytes) (clients : List Nat) (name date body : Bytes) 
   ((execOp s (.post (formatPost template name date body))).1,
    clients.map fun c => (c, formatPost template name date body))
 
+/-- `FlatNews.Write` when persisting fails (the temp file cannot be written or renamed): the in-memory text
+    already holds the post (`f.data = Concat(p, f.data)` comes first), the file is unchanged, an error is returned. -/
+def failedWrite (s : Store) (p : Bytes) : Store := { s with data := p ++ s.data }
+
+structure PostOutcome where
+  store : Store
+  acked : Bool
+  notes : List (Nat × Bytes)
+
+/-- `HandleTranOldPostNews` with the outcome of the persist step as an input: on an error the handler ends at
+    once – no transaction 102, no reply. -/
+def handlePostF (persistOk : Bool) (template : Bytes) (clients : List Nat) (name date body : Bytes) (s : Store) :
+    PostOutcome :=
+  if persistOk then
+    ⟨(handlePost template clients name date body s).1, true, (handlePost template clients name date body s).2⟩
+  else ⟨failedWrite s (formatPost template name date body), false, []⟩
+
+/-- `FlatNews.Reload` (operator reload, SIGHUP / API): with the store's lock held from before the file is read,
+    the whole reload is one step: memory := the file's text with `\n`→`\r`. -/
+def reloadStep (s : Store) : Store := { s with data := nl2cr s.file }
+
+theorem nl2cr_id (b : Bytes) (h : (10 : UInt8) ∉ b) : nl2cr b = b := by
+  induction b with
+  | nil => rfl
+  | cons c cs ih =>
+    have hc : c ≠ 10 := fun e => h (by simp [e])
+    have hcs : (10 : UInt8) ∉ cs := fun m => h (by simp [m])
+    simp only [nl2cr, List.map_cons, hc, if_false] at ih ⊢
+    rw [ih hcs]
+
+theorem boardAfter_no_nl (init : Bytes) (ops : List Op) (h0 : (10 : UInt8) ∉ init)
+    (hp : ∀ p ∈ postsOf ops, (10 : UInt8) ∉ p) : (10 : UInt8) ∉ boardAfter init ops := by
+  simp only [boardAfter, List.mem_append, List.mem_flatten, List.mem_reverse, not_or, not_exists, not_and]
+  exact ⟨fun l hl => hp l hl, h0⟩
+
 def ascii (s : String) : Bytes := s.toList.map fun c => UInt8.ofNat c.toNat
 
 theorem nl2cr_no_nl (b : Bytes) : (10 : UInt8) ∉ nl2cr b := by
